@@ -102,9 +102,10 @@ def build_coq():
     sys.path.insert(0, os.path.join(VERIF, "tools"))
     import gen_params
     info = gen_params.generate(REPO, os.path.join(COQ, "theories", "Params.v"))
-    rc, out = sh("ulimit -v 12000000; coq_makefile -f _CoqProject -o Makefile >/dev/null 2>&1; timeout 3000 make -k -j16 2>&1 | tail -60",
+    rc, out = sh("ulimit -v 12000000; coq_makefile -f _CoqProject -o Makefile >/dev/null 2>&1; "
+                 "timeout 3000 make -k -j16 > .make.log 2>&1; rc=$?; tail -60 .make.log; exit $rc",
                  cwd=COQ, timeout=3200)
-    ok = True
+    ok = rc == 0
     for v in theory_files():
         vo = v[:-2] + ".vo"
         if not os.path.exists(vo) or os.path.getmtime(vo) < os.path.getmtime(v):
@@ -276,7 +277,8 @@ def known_findings(prop_id):
         data = json.load(open(p))
     except OSError:
         return []
-    return [f for f in data.get("findings", []) if f.get("property") == prop_id and f.get("status") == "open"]
+    return [f for f in data.get("findings", [])
+            if (f.get("property") == prop_id or prop_id in f.get("also", [])) and f.get("status") == "open"]
 
 
 def write_replay(prop_id, seed, payload):
